@@ -160,7 +160,15 @@ def gen_case(ctx, rng, spec=None):
     groups = [(n, rng.choice(needed + [None]) if needed else None) for n in sizes]
     n_ds = 1 if regime in ('taylor', 'mixed') else spec.get('n_ds', rng.choice([1, 2, 2, 3]))
     methods = spec.get('methods', rng.choice([['linear'], ['parabola'], ['linear', 'parabola'], ['parabola', 'linear']]))
-    datasets = [gen_dataset(rng, n_src, needed, regime, methods, spec.get('kinds')) for _ in range(n_ds)]
+    ratio_needed = [] if spec.get('yield_only') else needed
+    datasets = [gen_dataset(rng, n_src, ratio_needed, regime, methods, spec.get('kinds')) for _ in range(n_ds)]
+    if spec.get('yield_only'):
+        # the floating parameter enters ONLY through the detector yields; the inner ratio is a real
+        # PDFRatioProduct of two parameter-free ratios (get_gradient returns the scalar 0)
+        groups = [(n, needed[0]) for (n, _y) in groups]
+        for dsd in datasets:
+            dsd['const_product'] = True
+        ctx.count('yield_only_parameter')
     for dsd in datasets:
         for e in dsd['eratios']:
             ctx.count('ratio_kind:' + e[3])
@@ -820,6 +828,15 @@ def corpus_cases(ctx, rng):
                  {'n_src': 3, 'k_other': 3, 'n_needed': 2, 'fixed': [False, True, False], 'order': 3, 'regime': 'stable', 'on_grid': False, 'sobp': True, 'n_ds': 1},
                  {'n_src': 1, 'k_other': 1, 'n_needed': 1, 'fixed': [False], 'order': 1, 'regime': 'taylor', 'on_grid': False}):
         out.append(gen_case(ctx, rng, spec))
+    # a floating parameter that only the detector yields read, several sources, parameter-free product ratio
+    # (seeded C02-2: the source-weight contribution dropped by an early return), single and multi dataset
+    for spec in ({'n_src': 2, 'k_other': 1, 'n_needed': 1, 'fixed': [False], 'order': 0, 'n_ds': 1},
+                 {'n_src': 3, 'k_other': 1, 'n_needed': 1, 'fixed': [False], 'order': 1, 'n_ds': 2},
+                 {'n_src': 3, 'k_other': 2, 'n_needed': 1, 'fixed': [False, False], 'order': 2, 'n_ds': 3, 'assign': [0, 1, 0]},
+                 {'n_src': 2, 'k_other': 2, 'n_needed': 1, 'fixed': [True, False], 'order': 1, 'n_ds': 2, 'assign': [1, 1]}):
+        spec.update({'yield_only': True, 'regime': 'stable', 'on_grid': False, 'sobp': False, 'gf_field': False})
+        out.append(gen_case(ctx, rng, spec))
+        out[-1]['probe'] = True
     return out
 
 
